@@ -285,15 +285,25 @@ func runSB(c SBCase, x *h.Ctx) {
 	} else {
 		x.Labelf("pair:differs-in:%s", diffField(c.A, c.B))
 	}
+	var q, cc, na bool
 	for _, r := range c.A.ChainID + c.B.ChainID {
 		switch {
 		case r == '"' || r == '\\':
-			x.Label("chain-id:quote-or-backslash")
+			q = true
 		case r < 0x20 || r == 0x7f:
-			x.Label("chain-id:control-char")
+			cc = true
 		case r > 0x7f:
-			x.Label("chain-id:non-ascii")
+			na = true
 		}
+	}
+	if q {
+		x.Label("chain-id:quote-or-backslash")
+	}
+	if cc {
+		x.Label("chain-id:control-char")
+	}
+	if na {
+		x.Label("chain-id:non-ascii")
 	}
 	if c.A.Kind == c.B.Kind || same {
 		x.NonTrivial()
